@@ -25,7 +25,7 @@ instruction's channel, embedded in the register, and equals `instrProp` for ever
 
 **Instruction list → pulses → slices → propagator** (`end_to_end_pulses_partial`, `Lemmas/Compose*.lean`): for an instruction
 list with rational durations and coefficients, the propagator that the MODELS of C12 (`Concat.schedule`, `groupPulses`,
-`compileS Gen.concatSrc`) and C14 (`Grid.fullCoeffsV`, `slices`, `runAnalytically`) compute from it — the product of
+`compileS Gen.concatSrc`) and C14 (`Grid.fullCoeffsVW` — both paddings and both shapes of the advance step —, `slices`, `runAnalytically`) compute from it — the product of
 the slice exponentials over the merged grid — times `e^{iφ}` is the circuit's unitary.
 
 What is NOT proved here (see notes/C06.md): the routing stage of the transpilation theorem (`RouteStageDen`, a named
@@ -446,7 +446,7 @@ theorem end_to_end_pulses_partial (circular pre : Bool) (N : ℕ) (ρ : ℕ → 
           Concat.compileS Gen.concatSrc (isQ.map (toC enc)) sch =
             some (.ok (some ((groups.map (·.1)).zip (chans.map some)))) ∧
           (Grid.SepAll tol (chans.map (·.1)) → ∃ (T : List Rat) (rows : List (List Rat)),
-            (∀ zl : Bool, Grid.fullCoeffsV zl tol (chans.map fun c => Grid.Chan.arr c.1 c.2) = .ok (T, rows)) ∧
+            (∀ zl w : Bool, Grid.fullCoeffsVW zl w tol (chans.map fun c => Grid.Chan.arr c.1 c.2) = .ok (T, rows)) ∧
             GateC.phase (reportedPhase old φ) • Grid.ordProdL (Grid.runAnalytically 0
               ((groups.map (·.1)).map (labelHam circular N enc)) (Grid.slices T rows)) = U) := by
   obtain ⟨is, φ, ws, h1, h2, _, h4, _, h6⟩ :=
@@ -566,7 +566,7 @@ theorem end_to_end_pulses_scheduled_partial (circular pre : Bool) (N : ℕ) (ρ 
           Concat.compileS Gen.concatSrc (isQ.map (toC enc)) (schOf mode st0 perm) =
             some (.ok (some ((groups.map (·.1)).zip (chans.map some)))) ∧
           (Grid.SepAll tol (chans.map (·.1)) → ∃ (T : List Rat) (rows : List (List Rat)),
-            (∀ zl : Bool, Grid.fullCoeffsV zl tol (chans.map fun c => Grid.Chan.arr c.1 c.2) = .ok (T, rows)) ∧
+            (∀ zl w : Bool, Grid.fullCoeffsVW zl w tol (chans.map fun c => Grid.Chan.arr c.1 c.2) = .ok (T, rows)) ∧
             GateC.phase (reportedPhase old φ) • Grid.ordProdL (Grid.runAnalytically 0
               ((groups.map (·.1)).map (labelHam circular N enc)) (Grid.slices T rows)) = U) := by
   obtain ⟨is, φ, ws, h1, h2, _, h4, _, h6⟩ :=
